@@ -1,6 +1,6 @@
 CONSTANTS
   N = 2
-  Upgs = {9, 12}
+  Upgs = {12}
   Gods = {"V"}
   Pools = {0, 1}
   PrevSet = {2, 3, 4, 6, 7}
